@@ -155,7 +155,8 @@ class World:
                 from zope.interface.declarations import _empty
                 self.spec[n] = _empty
                 continue
-            if job.get('leaf_impl') and n == ns and n not in kids:
+            if job.get('all_impl') or (
+                    job.get('leaf_impl') and n == ns and n not in kids):
                 K = type('K%d' % n, (object,), {})
                 s = implementedBy(K)
                 s.__bases__ = bases
@@ -267,6 +268,9 @@ class World:
                                                self.val(act['val']))
         elif op == 'rebuild':
             self.reg[act['g']].rebuild()
+        elif op == 'relookup':
+            # what __setstate__ of a persistent registry does after loading
+            self.reg[act['g']]._createLookup()
         elif op == 'setRegBases':
             if self.comp is not None:
                 c = self.comp[act['g']]
